@@ -398,7 +398,13 @@ def fmt_root(r):
     if r[0] == "un":
         return "%s(%s)" % (r[1], "|".join(sorted(fmt_root(x) for x in r[2])))
     if r[0] == "local":
-        return "_%d" % r[1]
+        return "?"
+    if r[0] == "agg":
+        return str(r[1])
+    if r[0] == "discr":
+        return "discr(%s)" % "|".join(sorted(fmt_root(x) for x in r[1]))
+    if r[0] == "fn":
+        return "fn:" + str(r[1]).split("::")[-1]
     return str(r)
 
 
